@@ -221,6 +221,29 @@ class Vals:
                     return self.root(t["args"][0], depth + 1)
             return Root(("call", d[1]))
 
+    def describe(self, root):
+        """Human-readable description of a root for reports."""
+        from .facts import loc
+        base = root.base
+        if base[0] == "local":
+            n = self.body.local_name(base[1])
+            s_ = "`%s`" % n if n else "_%d" % base[1]
+        elif base[0] == "arg":
+            n = self.body.local_name(base[1])
+            s_ = "parameter `%s`" % (n or base[1])
+        elif base[0] == "call":
+            t = self.body.blocks[base[1]]["term"]
+            c = t.get("callee") or {}
+            dn = self.body.local_name(t["dest"]["l"])
+            s_ = ("`%s` = " % dn if dn else "") + "%s(..) at %s" % (c.get("name") or c.get("path", "call"), loc(t.get("span")))
+        elif base[0] == "const":
+            s_ = "constant %s" % (base[1],)
+        else:
+            s_ = str(base)
+        for p_ in root.path:
+            s_ += "." + (p_ if isinstance(p_, str) else str(p_))
+        return s_
+
     # ---- convenience ----------------------------------------------------------------------
     def def_rvalue(self, l):
         """If local l is defined by exactly one statement, return its rvalue."""
